@@ -45,7 +45,10 @@ Verdict typeProp(Ctx& c) {
     e = mk(TID::NT_FUNC_DEFINITION, {mk(TID::NT_ARGUMENTS, decl), body});
     if (c.chance(1, 3)) e = mk(TID::PUNC_DEFINE, {mkName(TID::ID_FUNCTION, "F9"), e});
   } else {
-    e = mk(TID::PUNC_STRUCT, {mkName(TID::ID_GLOBAL, "S99"), domainExpr(Ty::Set(g.randType(2)))});
+    // mostly a proper typification expression; sometimes a global that is not a set (must be rejected with an error)
+    std::vector<std::string> elementGlobals; for (auto& gl : g.G.globals) if (!gl.type.isSet() && gl.type.k != Ty::LOGIC) elementGlobals.push_back(gl.name);
+    if (!elementGlobals.empty() && c.chance(1, 4)) e = mk(TID::PUNC_STRUCT, {mkName(TID::ID_GLOBAL, "S99"), mkName(TID::ID_GLOBAL, c.oneof(elementGlobals))});
+    else e = mk(TID::PUNC_STRUCT, {mkName(TID::ID_GLOBAL, "S99"), domainExpr(Ty::Set(g.randType(2)))});
   }
   std::string opName;
   const bool doMutate = c.chance(1, 2);
